@@ -1,6 +1,7 @@
 (* Model of internal/workspace/index.go: the aggregated counters of WorkspaceIndex maintained
    incrementally by SetFileIndex / RemoveFile (addFileIndex, removeFileIndex, decrementBy) and
-   the payee-template table (overwrite on add, delete by key on remove).
+   the payee-template table, rebuilt by refreshDerived from the indexed files merged in sorted
+   path order (buildPayeeTemplates; /repo 8a0a0e8).
    All five usage-count maps, the date map and the tag-value map follow one pattern; a counter
    key is (kind byte :: name), so one aggregated association list models them all. *)
 From HL Require Import Lib.Bytes.
@@ -29,12 +30,14 @@ Fixpoint cdec (k : list N) (c : N) (m : cmap) : cmap :=
       if beq k k' then (if v <=? c then r else (k', v - c) :: r) else (k', v) :: cdec k c r
   end.
 
-Record findex := mkFI { fi_counts : cmap; fi_templates : list (list N) (* payees with a template *) }.
+(* a template is represented by a fingerprint of its posting list *)
+Definition tmap := list (list N * N).
+Record findex := mkFI { fi_counts : cmap; fi_templates : tmap (* payee -> template *) }.
 
 Record wsindex := mkWI {
   wi_files : list (list N * findex);        (* fileIndexes *)
   wi_counts : cmap;                         (* the aggregated counters *)
-  wi_templates : list (list N)              (* keys of payeeTemplates *)
+  wi_templates : tmap                       (* payeeTemplates *)
 }.
 
 Fixpoint file_get (p : list N) (fs : list (list N * findex)) : option findex :=
@@ -45,19 +48,36 @@ Fixpoint file_get (p : list N) (fs : list (list N * findex)) : option findex :=
 Definition file_del (p : list N) (fs : list (list N * findex)) : list (list N * findex) :=
   filter (fun pf => negb (beq p (fst pf))) fs.
 
-Definition tmpl_add (k : list N) (t : list (list N)) : list (list N) :=
-  if existsb (beq k) t then t else t ++ [k].
-Definition tmpl_del (k : list N) (t : list (list N)) : list (list N) := filter (fun x => negb (beq k x)) t.
+(* templates[payee] = postings *)
+Fixpoint tput (k : list N) (v : N) (t : tmap) : tmap :=
+  match t with
+  | [] => [(k, v)]
+  | (k', v') :: r => if beq k k' then (k', v) :: r else (k', v') :: tput k v r
+  end.
+(* sort.Strings(paths): insertion into a list ordered by path *)
+Fixpoint insert_file (x : list N * findex) (l : list (list N * findex)) : list (list N * findex) :=
+  match l with
+  | [] => [x]
+  | y :: r => if bltb (fst x) (fst y) then x :: y :: r else y :: insert_file x r
+  end.
+Definition sort_files (fs : list (list N * findex)) : list (list N * findex) := fold_right insert_file [] fs.
+Definition merge_file (t : tmap) (pf : list N * findex) : tmap :=
+  fold_left (fun t kv => tput (fst kv) (snd kv) t) (fi_templates (snd pf)) t.
+(* buildPayeeTemplates *)
+Definition build_templates (fs : list (list N * findex)) : tmap := fold_left merge_file (sort_files fs) [].
 
+(* addFileIndex / removeFileIndex end with refreshDerived, which rebuilds the template table *)
 Definition add_file (p : list N) (f : findex) (w : wsindex) : wsindex :=
-  mkWI ((p, f) :: wi_files w)
+  let fs := (p, f) :: wi_files w in
+  mkWI fs
        (fold_left (fun m kc => cadd (fst kc) (snd kc) m) (fi_counts f) (wi_counts w))
-       (fold_left (fun t k => tmpl_add k t) (fi_templates f) (wi_templates w)).
+       (build_templates fs).
 
 Definition remove_file (p : list N) (f : findex) (w : wsindex) : wsindex :=
-  mkWI (file_del p (wi_files w))
+  let fs := file_del p (wi_files w) in
+  mkWI fs
        (fold_left (fun m kc => cdec (fst kc) (snd kc) m) (fi_counts f) (wi_counts w))
-       (fold_left (fun t k => tmpl_del k t) (fi_templates f) (wi_templates w)).
+       (build_templates fs).
 
 Inductive wop := WSet (p : list N) (f : findex) | WRemove (p : list N).
 
